@@ -248,6 +248,7 @@ inductive Handler
   | inlineBitsBody | enumBody | enumValues | enumValue | enumValueBody | externalBody
   | commentLine | eol | emptyList | emptyString | identity | concatenate
   | concatenateWithPrefixSpaces | concatenateWithSpaces | concatenateLists
+  | docRstrip | additiveExpressionRight   -- handlers introduced by fixes/C11-*.patch
   deriving DecidableEq, Repr, Inhabited
 
 /-- The Python function names, as they appear in the regenerated table. -/
@@ -285,6 +286,8 @@ def Handler.ofName : String → Option Handler
   | "_concatenate_with_prefix_spaces" => some .concatenateWithPrefixSpaces
   | "_concatenate_with_spaces" => some .concatenateWithSpaces
   | "_concatenate_lists" => some .concatenateLists
+  | "_doc" => some .docRstrip
+  | "_additive_expression_right" => some .additiveExpressionRight
   | _ => none
 
 /-- Handlers declared with a trailing `config` parameter (must be registered through
@@ -600,6 +603,22 @@ def hIdentity : List Fmt → Option Fmt
   | [x] => some x
   | _ => none
 
+/-- `_doc` of fixes/C11-inline-doc-trailing-blanks.patch: `documentation.rstrip()`. -/
+def hDocRstrip : List Fmt → Option Fmt
+  | [d] => do
+    let d ← asStr d
+    pure (.str (rstrip d))
+  | _ => none
+
+/-- `_additive_expression_right` of fixes/C11-minus-minus.patch. -/
+def hAdditiveExpressionRight : List Fmt → Option Fmt
+  | [operator, operand] => do
+    let operator ← asStr operator
+    let operand ← asStr operand
+    if operator = ['-'] ∧ operand.head? = some '-' then pure (.str (operator ++ sp ++ operand))
+    else pure (.str (operator ++ operand))
+  | _ => none
+
 /-- Run one handler on the results of the children.  `iw` = `config.indent_width`. -/
 def Handler.run (iw : Nat) : Handler → List Fmt → Option Fmt
   | .module, a => hModule iw a
@@ -635,6 +654,8 @@ def Handler.run (iw : Nat) : Handler → List Fmt → Option Fmt
   | .concatenateWithPrefixSpaces, a => (allStrs a).map (fun l => .str (concatPrefixSpaces l))
   | .concatenateWithSpaces, a => (allStrs a).map (fun l => .str (concatWith sp l))
   | .concatenateLists, a => hAdd a
+  | .docRstrip, a => hDocRstrip a
+  | .additiveExpressionRight, a => hAdditiveExpressionRight a
 
 /-! ## The fold (`parser_util.transform_parse_tree`) -/
 
